@@ -26,11 +26,29 @@ pub struct ProcEnv {
     /// of through the library's test override. The simulated instant is 01:00..23:00 LOCAL time on
     /// `today`, so the UTC date is often the day after (west) or before (east).
     pub clock_tz_hours_west: Option<i8>,
+    /// Seconds added to the process's instant (histories keep the clock monotone across the runs of one day).
+    pub now_shift: i64,
 }
 
 impl ProcEnv {
     pub fn new(hash_seed: u64, today: Date) -> ProcEnv {
-        ProcEnv { hash_seed, today, knobs: Knobs::default(), fs_faults: FsFaults::default(), clock_tz_hours_west: None }
+        ProcEnv { hash_seed, today, knobs: Knobs::default(), fs_faults: FsFaults::default(), clock_tz_hours_west: None, now_shift: 0 }
+    }
+
+    /// Seconds since local midnight of `today` at the process's instant.
+    pub fn now_unix_secs_into_local_day(&self) -> i64 {
+        let local_midnight = unix_noon(self.today) - 43_200 + self.clock_tz_hours_west.unwrap_or(0) as i64 * 3600;
+        self.now_unix() - local_midnight
+    }
+
+    /// The simulated instant (unix seconds) at which this process runs.
+    pub fn now_unix(&self) -> i64 {
+        self.now_shift
+            + match self.clock_tz_hours_west {
+                None => unix_noon(self.today) + (self.hash_seed % 21_600) as i64 - 10_800,
+                // local noon +- 11 h, expressed in UTC seconds
+                Some(h) => unix_noon(self.today) + h as i64 * 3600 + (self.hash_seed % 79_200) as i64 - 39_600,
+            }
     }
 }
 
@@ -83,14 +101,11 @@ where
         w.entropy_calls = 0;
         w.clock_reads = 0;
         // Same simulated day, but every simulated process sees its own time of day and pid.
-        w.now_unix = match env.clock_tz_hours_west {
-            None => unix_noon(env.today) + (env.hash_seed % 21_600) as i64 - 10_800,
-            // local noon +- 11 h, expressed in UTC seconds
-            Some(h) => unix_noon(env.today) + h as i64 * 3600 + (env.hash_seed % 79_200) as i64 - 39_600,
-        };
+        w.now_unix = env.now_unix();
         w.pid = 10_000 + (env.hash_seed % 50_000) as i32;
         w.unmodelled.clear();
         w.fs.begin_process(env.knobs.clone(), env.fs_faults.clone());
+        w.fs.disk.clock = w.now_unix;
     });
     let today = env.today;
     let use_clock = env.clock_tz_hours_west.is_some();
